@@ -63,7 +63,8 @@ def nontrivial(sc, tr):
 def run(tier, seed):
     rng = random.Random(seed)
     chk = dplib.DataPathCheck(PROP, tier, seed)
-    c01.standard_families(chk, tier, seed, rng, nrand_quick=100, nrand_thorough=3000)
+    c01.standard_families(chk, tier, seed, rng, nrand_quick=100, nrand_thorough=3000, matrix=(4, False),
+                          focus=("store-", "emptypos", "ackfail", "dlqclose"))
     n = 60 if tier == "quick" else 1500
     chk.run(order_scenarios("v1", rng, n) + order_scenarios("v2", rng, n), name="order")
     chk.validate()
